@@ -116,7 +116,7 @@ class JUnitRootSuiteReporter(reporting.RootSuiteReporter):
                        additional_attributes: dict = None) -> ET.Element:
         timestamp = suite_reporter.start_time.replace(microsecond=0)
         attributes = {
-            'name': name,
+            'name': _with_only_valid_xml_characters(name),
             'tests': str(len(suite_reporter.result())),
             'timestamp': timestamp.isoformat(),
             'hostname': self._host_name,
@@ -147,7 +147,7 @@ class JUnitRootSuiteReporter(reporting.RootSuiteReporter):
 
     def _xml_for_case(self, test_case_reference: TestCaseFileReference,
                       processing_info: TestCaseProcessingInfo) -> ET.Element:
-        name = self._file_path_pres(test_case_reference.file_path)
+        name = _with_only_valid_xml_characters(self._file_path_pres(test_case_reference.file_path))
         ret_val = ET.Element('testcase', {
             'name': name,
             'classname': name,
